@@ -22,6 +22,10 @@ def gen_case(rng, i, tier):
     ops = ["case %d" % i] + links + V.gen_splits(rng, links) + ["table", "ref 0", "open 0 1 %d" % rng.choice([4096, 513, 1]), "open 1 1 4096"]
     if rng.random() < 0.3:
         ops.append("open 2 1 4096")
+        if rng.random() < 0.5:
+            # the two handles of ov_crosslap decode at different rates (refused on links with 64-sample blocks: then both stay at full rate)
+            # (the lapping handle and its plain twin always share one rate)
+            ops += ["ref 1"] + rng.choice([["halfrate 2 1"], ["halfrate 2 1"], ["halfrate 0 1", "halfrate 1 1"]])
 
     def pos():
         b = rng.choice(bounds)
@@ -70,6 +74,7 @@ def oracle(d):
     plain = None      # (kind, arg, rc, tell) of the twin's plain seek
     synced = False    # slot 0 landed by a lapped seek that succeeded, twin by the plain one
     stale = {}
+    hr = {}
     for op, a in d["ans"]:
         if a is None or isinstance(a, list):
             continue
@@ -111,8 +116,10 @@ def oracle(d):
             if int(rc) > 0:
                 if f.get("ok") not in ("1", "2"):
                     return "data: slot %s: %s" % (t[1], a)
-                if int(f["t1"]) - int(f["t0"]) != int(rc):
+                if int(f["t1"]) - int(f["t0"]) != int(rc) * (2 if hr.get(t[1]) else 1):
                     return "advance: " + a
+        elif t[0] == "halfrate":
+            hr[t[1]] = f.get("p") == "1"
         elif t[0] == "crosslap":
             if f["rc"] not in ("0", "OV_EOF"):
                 return "crosslap: returned " + f["rc"]
